@@ -8,9 +8,11 @@
 EXTENDS Kp
 
 \* ---- items -----------------------------------------------------------------
-CoordF(rep, c, form, tail, fail) == [t |-> "c", rep |-> rep, cols |-> c, form |-> form, tail |-> tail, fail |-> fail]
+CoordX(rep, c, form, tail, fail, fk, sep) ==
+    [t |-> "c", rep |-> rep, cols |-> c, form |-> form, tail |-> tail, fail |-> fail, fk |-> fk, sep |-> sep]
+CoordF(rep, c, form, tail, fail) == CoordX(rep, c, form, tail, fail, "dom", "sp")
 Coord(rep, c, form, tail) == CoordF(rep, c, form, tail, "none")
-Deco(kind) == [t |-> kind, rep |-> "one", cols |-> 0, form |-> "dec", tail |-> FALSE, fail |-> "none"]
+Deco(kind) == [t |-> kind, rep |-> "one", cols |-> 0, form |-> "dec", tail |-> FALSE, fail |-> "none", fk |-> "dom", sep |-> "sp"]
 DecoKinds == <<"blank", "comment", "ws", "icomment">>
 
 \* ---- sizes: k full batches and a remainder of 0, 1 or B-1 -----------------
@@ -61,11 +63,13 @@ SrcPatterns(n) == CASE n = 1 -> << <<"file">>, <<"dash">>, <<"implicit">> >>
 Srcs(n, x) == SrcPatterns(n)[(x % Len(SrcPatterns(n))) + 1]
 \* eol: whether the last line of the file is terminated by a newline
 MkFiles(pieces, srcs) == [p \in 1..Len(pieces) |-> [src |-> srcs[p], items |-> pieces[p],
-                                                    eol |-> (p + Len(pieces[p])) % 2 = 1]]
+                                                    eol |-> (p + Len(pieces[p])) % 2 = 1, nl |-> "lf"]]
+\* the same files with other line terminators
+WithNl(files, nls) == [p \in 1..Len(files) |-> [files[p] EXCEPT !.nl = nls[p]]]
 \* a file that does not exist, as argument number p
 WithMissing(files, p) ==
     [q \in 1..(Len(files) + 1) |-> IF q < p THEN files[q]
-                                   ELSE IF q = p THEN [src |-> "missing", items |-> <<>>, eol |-> TRUE]
+                                   ELSE IF q = p THEN [src |-> "missing", items |-> <<>>, eol |-> TRUE, nl |-> "lf"]
                                    ELSE files[q - 1]]
 
 \* ---- option sets ------------------------------------------------------------
@@ -80,7 +84,7 @@ RotOpt(x) == CmpOpt((x * 37) % NCmp)
 CountOpt(x) == Opt(x % 2 = 1, (x \div 2) % 2 = 1, x % 3 = 0, x % 3 = 1,
                    IF (x \div 4) % 3 = 2 THEN 3 ELSE NoOpt,
                    IF (x \div 4) % 3 = 1 THEN 2 ELSE NoOpt)
-NOps == 4    \* operations accepted by the library (the binding names them)
+NOps == 4    \* operations accepted by the library (the binding names them); 5, 6: family F; 7: family H
 NBad == 3    \* operations refused by the library
 
 Shape(fam, files, op, opx, opts) == [fam |-> fam, files |-> files, op |-> op, opx |-> opx, opts |-> opts]
@@ -183,8 +187,97 @@ FamFT == {F1(x[1], x[2], x[3], mx) : x \in FIdx, mx \in 1..4}
          \cup {F2(x[1], x[2], x[3], mx) : x \in FPairs, mx \in 1..3}
          \cup {F3(si, mx) : si \in 2..NS, mx \in 1..4}
 
-ShapesQ == FamAQ \cup FamBQ \cup FamCQ \cup FamDQ \cup FamEQ \cup FamFQ
-ShapesT == FamAT \cup FamBT \cup FamCT \cup FamDT \cup FamET \cup FamFT
+\* ---- family G: more decimals than anybody needs --------------------------------------
+\* (-d is "number of decimals in output", any natural number; up to Binary64Decimals the digits
+\* are those of the library's number, beyond that zeros.)  Small inputs only: a line of 4 numbers
+\* with 100000 decimals is 400 kB.  Operations whose results are exact in binary64 (the binding
+\* names them), so that every digit can be compared.
+BigDecs  == <<15, 400, 65535, 65536, 100000>>
+ExactOps == <<1, 2, 4>>
+G1(dx, D, mx, ox, zt) == Shape("G", OneFile(SmallItems, dx + D), "ok", ExactOps[ox],
+                               Opt(Modes[mx].inv, Modes[mx].rt, zt % 2 = 1, (zt \div 2) % 2 = 1, BigDecs[dx], D))
+FamGQ == {G1(dx, D, ((dx + D) % 4) + 1, ((dx + 2 * D) % 3) + 1, (dx + D) % 4) : dx \in 1..5, D \in 1..4}
+FamGT == {G1(dx, D, mx, ox, (dx + D + mx + ox) % 4) : dx \in 1..5, D \in 1..4, mx \in 1..4, ox \in 1..3}
+
+\* ---- family H: coordinate lines that fail in BOTH passes of --roundtrip ----------------
+\* (a NaN line under an operation that reports NaN tuples in either direction: operation 7).
+\* The two passes report the same number, so --roundtrip has no reason to refuse: every line
+\* is printed, the failing ones as NaN, all others as their own residuals.  Same positions
+\* as family F, all four modes.
+HCoords(si, F) == [idx \in 1..M(si) |-> CoordX(Reps(si)[idx], 2 + (idx % 3), "dec", FALSE, F[idx], "both", "sp")]
+HDecs == <<0, 3, 6>>
+HOpt(mx, x) == Opt(Modes[mx].inv, Modes[mx].rt, x % 2 = 1, (x \div 2) % 2 = 1, HDecs[(x % 3) + 1], (x % 4) + 1)
+HShape(si, F, mx, x) == Shape("H", OneFile(Weave(HCoords(si, F), NoDeco(M(si))), x), "ok", 7, HOpt(mx, x))
+H1(si, idx, px, mx) == HShape(si, [i \in 1..M(si) |-> IF i = idx THEN FailPats(Reps(si)[i])[px] ELSE "none"], mx, si + idx + px)
+H2(si, i1, i2, mx) == HShape(si, [i \in 1..M(si) |-> IF i = i1 THEN FailPats(Reps(si)[i])[1]
+                                                     ELSE IF i = i2 THEN FailPats(Reps(si)[i])[NPats(si, i)] ELSE "none"],
+                             mx, si + i1 + 3 * i2)
+H3(si, mx) == HShape(si, [i \in 1..M(si) |-> "all"], mx, si + mx)
+\* three single lines, the failing one first / in the middle / last, every mode, every -D
+H0(pos, mx, x) == Shape("H", OneFile([i \in 1..3 |-> CoordX("one", 2 + (i % 3), "dec", FALSE, IF i = pos THEN "all" ELSE "none", "both", "sp")], x),
+                        "ok", 7, HOpt(mx, x))
+FamHQ == {H0(pos, mx, pos + mx) : pos \in 1..3, mx \in 1..4}
+         \cup {H1(x[1], x[2], x[3], 3 + ((x[1] + x[2] + x[3]) % 2)) : x \in {y \in FIdx : y[1] \in {2, 3, 5, 6, 9}}}
+         \cup {H1(x[1], x[2], 1, 1 + ((x[1] + x[2]) % 2)) : x \in {y \in FIdx : y[3] = 1 /\ y[1] \in {3, 4, 8}}}
+         \cup {H2(si, 1, M(si), 3 + (si % 2)) : si \in {3, 5, 7}}
+         \cup {H3(si, 3 + (si % 2)) : si \in {2, 4}}
+FamHT == {H0(pos, mx, x) : pos \in 1..3, mx \in 1..4, x \in 0..11}
+         \cup {H1(x[1], x[2], x[3], mx) : x \in FIdx, mx \in 1..4}
+         \cup {H2(x[1], x[2], x[3], mx) : x \in FPairs, mx \in 3..4}
+         \cup {H3(si, mx) : si \in 2..NS, mx \in 1..4}
+
+\* ---- family S: surplus columns, separators, line terminators ---------------------------
+Seps == <<"sp", "tab", "multi">>
+SurplusCols == <<5, 6, 9>>
+ColsS(cp, idx, rep) ==
+    CASE cp = 1 -> IF rep = "fill" THEN 10 ELSE SurplusCols[(idx % 3) + 1]     \* a mixture of 1..7 / 5, 6, 9
+      [] cp = 2 -> 6
+      [] cp = 3 -> IF idx = 1 THEN 9 ELSE IF rep = "fill" THEN 0 ELSE 4          \* only the very first line
+      [] cp = 4 -> IF rep = "fill" THEN 0 ELSE (idx % 4) + 1                      \* no surplus (separators only)
+CoordsS(si, cp, fp, tp, sx) ==
+    [idx \in 1..M(si) |-> CoordX(Reps(si)[idx], ColsS(cp, idx, Reps(si)[idx]), FormFor(fp, idx), TailFor(tp, idx),
+                                 "none", "dom", Seps[IF sx = 4 THEN (idx % 3) + 1 ELSE sx])]
+\* S1: whole batches of lines with surplus columns, every separator
+S1(si, cp, fp, sx) == Shape("S", OneFile(Weave(CoordsS(si, cp, fp, 1 + (si % 2), sx), NoDeco(M(si))), si + cp),
+                            "ok", ((si + cp + sx) % NOps) + 1, RotOpt(29 * si + 7 * cp + 3 * fp + sx))
+\* S2: fourteen single lines (1-4 and surplus columns, both notations, every separator, trailing comments),
+\* a comment after the seventh and a blank line after the tenth, terminated by LF / CR LF / CR
+SmallSCols == <<1, 2, 3, 4, 5, 6, 9, 4, 3, 2, 1, 6, 5, 7>>
+SmallS == [idx \in 1..14 |-> CoordX("one", SmallSCols[idx], IF idx % 2 = 0 THEN "sexa" ELSE "dec", idx % 5 = 0,
+                                    "none", "dom", Seps[(idx % 3) + 1])]
+NLs == <<"lf", "crlf", "cr">>
+S2(x, nlx, opx) == Shape("S", WithNl(OneFile(Weave(SmallS, DecoAt2(14, 7, 2, 10, 1)), x), <<NLs[nlx]>>), "ok", opx, CmpOpt(x))
+\* S3: tabs / repeated blanks and CR LF, blank lines and comments in every gap (so also on both sides of
+\* every batch boundary), the input cut into two files with different terminators
+BaseS(si, cp, sx) == Weave(CoordsS(si, cp, 3, 2, sx), DecoAll(M(si)))
+S3(si, cp, sx, nlx, c) == Shape("S", WithNl(MkFiles(Cut(BaseS(si, cp, sx), <<c>>), Srcs(2, si + c)), <<NLs[nlx], NLs[3 - nlx]>>),
+                                "ok", ((si + c + sx) % NOps) + 1, RotOpt(31 * si + 5 * c + sx + nlx))
+S3one(si, cp, sx) == Shape("S", WithNl(OneFile(BaseS(si, cp, sx), si), <<"crlf">>),
+                           "ok", ((si + sx) % NOps) + 1, RotOpt(37 * si + sx))
+\* S4: files with lone carriage returns: k lines of c columns (alone, or after a file of ordinary lines)
+CRLines(k, c, sx) == [idx \in 1..k |-> CoordX("one", c, "dec", FALSE, "none", "dom", Seps[sx])]
+S4(k, c, sx, x) == Shape("S", WithNl(OneFile(CRLines(k, c, sx), x), <<"cr">>), "ok", (x % NOps) + 1, CmpOpt(x))
+S4two(k, c, x) == Shape("S", WithNl(MkFiles(<<CRLines(2, 3, 1), CRLines(k, c, 1)>>, Srcs(2, x)), <<"lf", "cr">>),
+                        "ok", (x % NOps) + 1, CmpOpt(x))
+LenBS(si) == 2 * M(si) + 1
+FamSQ == {S1(si, cp, 3, 4) : si \in {2, 5, 6}, cp \in 1..3}
+         \cup {S1(si, 4, 1, sx) : si \in {3, 4}, sx \in 2..3}
+         \cup {S2(x, (x % 3) + 1, ((x + (x \div 4)) % NOps) + 1) : x \in {y \in 0..(NCmp - 1) : y % 4 = 1}}
+         \cup {S3(si, 1 + (si % 4), 2 + (si % 3), 1 + (si % 2), LenBS(si) \div 2) : si \in {2, 4, 5, 9}}
+         \cup {S3one(si, 4, 4) : si \in {4, 6}}
+         \cup {S4(k, c, 1 + ((k + c) % 3), 16 * k + c) : k \in 1..4, c \in {1, 2, 4}}
+         \cup {S4two(k, 2, 5 * k) : k \in {1, 3}}
+FamST == {S1(si, cp, fp, sx) : si \in 2..NS, cp \in 1..3, fp \in {1, 3}, sx \in {1, 4}}
+         \cup {S1(si, 4, fp, sx) : si \in 2..NS, fp \in {1, 3}, sx \in 2..4}
+         \cup {S2(x, nlx, ((x + (x \div 4)) % NOps) + 1) : x \in 0..(NCmp - 1), nlx \in 1..3}
+         \cup {S3(x[1], cp, 2 + ((x[1] + x[2]) % 3), nlx, x[2]) :
+                   x \in {y \in (2..NS) \X (0..17) : y[2] <= LenBS(y[1]) /\ (y[1] + y[2]) % 2 = 0}, cp \in {1, 4}, nlx \in 1..2}
+         \cup {S3one(si, cp, sx) : si \in 2..NS, cp \in {1, 4}, sx \in 2..4}
+         \cup {S4(k, c, sx, 16 * k + c + 48 * sx) : k \in 1..5, c \in 1..5, sx \in 1..3}
+         \cup {S4two(k, c, 5 * k + c) : k \in 1..4, c \in 1..4}
+
+ShapesQ == FamAQ \cup FamBQ \cup FamCQ \cup FamDQ \cup FamEQ \cup FamFQ \cup FamGQ \cup FamHQ \cup FamSQ
+ShapesT == FamAT \cup FamBT \cup FamCT \cup FamDT \cup FamET \cup FamFT \cup FamGT \cup FamHT \cup FamST
 
 \* the sexagesimal notations with their values, for the binding
 ASSUME PrintT(<<"SEXA", ToJson([tab |-> SexaTable])>>)
